@@ -280,6 +280,7 @@ pub fn gen_action(r: &mut Rng, c: &Ctx, depth: u32, waiting: bool) -> String {
                 _ => format!("(on-idle-fakekey v{v} {} {t})", r.pick(&["press", "release", "tap"])),
             }
         }
+        29 if c.allow_custom => format!("({} {})", r.pick(&["unmod", "unshift"]), r.pick(&["q", "w", "1", "x"])),
         _ => out_key(r),
     }
 }
